@@ -107,8 +107,8 @@ func schedJob(t *testing.T, raw json.RawMessage) (any, error) {
 	}
 	sc := &schedCtx{Results: map[string]any{}}
 	var out SchedOut
-	vs.S.Park = true
-	defer func() { vs.S.Park = false; vs.S.Fine = false }()
+	vs.S.Park, vs.S.Dup = true, true
+	defer func() { vs.S.Park, vs.S.Dup, vs.S.Fine = false, false, false }()
 	o := runWorld(t, scn.Cfg, devs, func(w *World) { scn.Body(w, sc) }, func(w *World) any {
 		obs, fs := scn.Observe(w, sc)
 		out.Obs, out.Finds = obs, fs
